@@ -18,6 +18,23 @@ class ToolError(Exception):
     pass
 
 
+# set once enough new (not known) failures have been collected: the verdict is decided,
+# remaining validation work is skipped
+import threading
+STOP = threading.Event()
+MAX_NEW_FAILURES = 4
+_new_failures = []
+
+
+def note_failures(fs):
+    known = load_known()
+    for f in fs:
+        if not any(matches(k, f) for k in known):
+            _new_failures.append(f)
+    if len(_new_failures) >= MAX_NEW_FAILURES:
+        STOP.set()
+
+
 def log(*a):
     print(*a, flush=True)
 
@@ -164,6 +181,8 @@ def validate_file(path, props, module="TraceAbs"):
     start = 0
     rounds = 0
     while start < len(units):
+        if STOP.is_set():
+            break
         rounds += 1
         if rounds > 80:
             raise ToolError("too many rejected runs in %s" % path)
@@ -201,10 +220,14 @@ def validate_file(path, props, module="TraceAbs"):
         res["accepted_runs"] += sum(max(1, len(u[1])) for u in units[start:ui])
         if si < 0:
             # the sequential part itself is rejected: the whole run goes
-            res["failures"] += diagnose(prefix + [l for sg in segs for l in sg], props, module)
+            fs = diagnose(prefix + [l for sg in segs for l in sg], props, module)
+            res["failures"] += fs
+            note_failures(fs)
             start = ui + 1
         else:
-            res["failures"] += diagnose(prefix + segs[si], props, module)
+            fs = diagnose(prefix + segs[si], props, module)
+            res["failures"] += fs
+            note_failures(fs)
             del segs[si]
             start = ui
             if not segs:
@@ -367,6 +390,9 @@ def gen_and_validate(res, jobs, props, par=None, module="TraceAbs"):
 
     def one(ij):
         i, (geo, args) = ij
+        if STOP.is_set():
+            return {"events": 0, "states": 0, "generated": 0, "accepted_runs": 0, "digests": set(), "failures": [],
+                    "job": [geo] + args, "skipped": True}
         out = os.path.join(WORK, "tr-%s-%d-%d.ndjson" % (res.prop, os.getpid(), i))
         harness(geo, args + ["out=" + out, "props=" + ",".join(props)])
         v = validate_file(out, props, module)
@@ -382,8 +408,10 @@ def gen_and_validate(res, jobs, props, par=None, module="TraceAbs"):
                 o = e.get("obs", {})
                 key = json.dumps([geo, strip_obs(e), o.get("trees"), o.get("slots"), o.get("stats")], sort_keys=True)
                 dig.add(hashlib.md5(key.encode()).hexdigest())
-                if first is None and e.get("ev") in ("sc", "bulkget", "call", "crash", "solo", "row", "sb", "ts", "lget"):
+                if first is None and e.get("ev") in ("sc", "bulkget", "call", "crash", "solo", "row", "sb", "ts", "lget", "cls", "zcreate", "nvm_create"):
                     first = strip_obs(e)
+                    if "reqs" in first:
+                        first["reqs"] = first["reqs"][:5]
             v["sample"] = first
         v["digests"] = dig
         os.unlink(out)
@@ -391,6 +419,8 @@ def gen_and_validate(res, jobs, props, par=None, module="TraceAbs"):
 
     with ThreadPoolExecutor(max_workers=par) as ex:
         outs = list(ex.map(one, enumerate(jobs)))
+    if STOP.is_set():
+        res.notes.append("stopped early: enough violations collected")
     for v in outs:
         res.cov["evaluations"] += v["events"]
         res.cov["states"] += v["states"]
